@@ -98,16 +98,19 @@ CHECKS = {
         "claim": "For every explored input, all block sizes (1.., >= #leaves, automatic, TBFMM_BLOCK_SIZE) and both grouping modes produced the identical multiset of elementary interactions (equal to the model's), identical cell expansions and identical results; on the sequential executor, and (h_sched) on TbfOpenmpAlgorithm, TbfAlgorithmTsm and TbfOpenmpAlgorithmTsm under shim schedules, where the automatic / environment block size of both trees must also be >= 1.",
         "note": "Trusted: recorder kernel and model. Number of operator calls is deliberately not compared (batching is legitimate).",
         "jobs": [{"bin": "h_fmm", "mode": "c08"}, {"bin": "h_sched", "mode": "c08"}],
-        "rule": "h_fmm periodic TUs also run the documented four-call periodic sequence (single-tree and target/source top tree, extra levels -1..3) under explicit sizes, the automatic size and both modes: results and in-tree expansions identical across groupings and equal to the exact image sum (the top tree gathers level-1 cells across groups). h_sched: alternately a target/source input (sequential + OpenMP Tsm executors) and a single-tree input (OpenMP executor, reference = sequential executor) under explicit sizes (quick: 6 sampled incl. 1, #leaves, #leaves+1), automatic and TBFMM_BLOCK_SIZE x both modes. h_fmm: case = one random input executed under every block size of {1,2,3,5,8,...,#leaves,#leaves+1,1e7, automatic, automatic via TBFMM_BLOCK_SIZE} (all sizes 1..N+1 when N<=12) x both grouping modes; the sorted multiset (op, level, target, source, code), every multipole/local (by cell) and every result (by original index) must be identical across groupings and equal to model / direct sum. non-trivial = >= 2 occupied leaves and at least one M2L or P2P; distinct = input signature.",
-        "require_events": ["groupings", "elementary-interactions", "periodic-groupings"],
+        "rule": "h_fmm periodic TUs also run the documented four-call periodic sequence (single-tree and target/source top tree, extra levels -1..3) under explicit sizes, the automatic size and both modes: results and in-tree expansions identical across groupings and equal to the exact image sum (the top tree gathers level-1 cells across groups). h_sched (one shim schedule is executed per grouping; that the result of that grouping cannot depend on the schedule is checked with the O-dag oracle on the task graph of that very grouping, key c08:result-depends-on-schedule-for-this-grouping): alternately a target/source input (sequential + OpenMP Tsm executors) and a single-tree input (OpenMP executor, reference = sequential executor) under explicit sizes (quick: 6 sampled incl. 1, #leaves, #leaves+1), automatic and TBFMM_BLOCK_SIZE x both modes. h_fmm: case = one random input executed under every block size of {1,2,3,5,8,...,#leaves,#leaves+1,1e7, automatic, automatic via TBFMM_BLOCK_SIZE} (all sizes 1..N+1 when N<=12) x both grouping modes; the sorted multiset (op, level, target, source, code), every multipole/local (by cell) and every result (by original index) must be identical across groupings and equal to model / direct sum. non-trivial = >= 2 occupied leaves and at least one M2L or P2P; distinct = input signature.",
+        "require_events": ["groupings", "elementary-interactions", "periodic-groupings", "grouping-task-graphs-checked"],
         "assumptions": [],
     },
     "C12": {
         "level": EXPL,
         "technique": "runtime monitoring of execute(flags) histories: recorder kernel (which operator, which level), byte snapshots of the tree between calls, bit-exact polynomial kernel",
         "claim": "On every explored tree: each single flag called only its operator and wrote only its output kind; every ordered partition of the flags into stages respecting the dependency order (all 2^4 chain cuts x every placement of P2P, plus the documented 3-stage split) ended bit-identical to one full run; for every upper level 0..height no operator ran above it and the result equalled the model evaluated with that level. The same three families (single flags, upper levels 0..height+1, staged histories) held on TbfOpenmpAlgorithm, TbfAlgorithmTsm and TbfOpenmpAlgorithmTsm (the OpenMP ones under shim schedules): events == model with that level, bit-identical to the sequential executor.",
-        "note": "Trusted: recorder, snapshots by (level,coord) and by original index, model. The Specx/StarPU executors (mock runtimes) run the upper-level family 0..height+1 (h_specx / h_starpu c12); flag histories are not run on them.",
-        "jobs": [{"bin": "h_fmm", "mode": "c12"}, {"bin": "h_sched", "mode": "c12"}, {"bin": "h_specx", "mode": "c12"}, {"bin": "h_starpu", "mode": "c12"}],
+        "note": "Trusted: recorder, snapshots by (level,coord) and by original index, model. The Specx/StarPU executors (mock runtimes) run the upper-level family 0..height+1 (h_specx / h_starpu c12); flag histories are not run on them. The periodic top tree's own flags (M2M / M2L / L2L stages, no-op for the others) are exercised inside the C10 case sets and judged here through the key c10:staged-top-tree.",
+        "jobs": [{"bin": "h_fmm", "mode": "c12"}, {"bin": "h_sched", "mode": "c12"}, {"bin": "h_specx", "mode": "c12"}, {"bin": "h_starpu", "mode": "c12"},
+                 # the periodic top tree takes operator flags as well: the periodic case sets run it as four flagged calls in a quarter of the cases; only that key is judged here
+                 {"bin": "h_fmm", "mode": "c10"}],
+        "key_filter": ["^c12", "^c10:staged-top-tree:", "^index-multiset", "^harness:", "^c06:symbolic", "^(asan|ubsan|lsan|tsan|memcheck|assert|glibcxx-assert|abort|signal|hang|exit):"],
         "rule": "the named composite flags the README documents (TbfNearField, TbfFarField, TbfNearAndFarFields, TbfBottomToTopStages, TbfTransferStages, TbfTopToBottomStages) are used as such: each alone must call exactly the operators listed for it, and the histories {FarField;NearField}, {NearField;FarField}, {NearAndFarFields}, the documented three-stage split and {BottomToTop;NearField;M2L;TopToBottom} head every sample of staged histories on every executor. cases cycle through three history families on random trees: single flags (6 runs + 6 named composites), staged histories (quick 24 sampled incl. the documented split; thorough all %d), upper levels 0..height (height+1 runs with P-rec + P-set model); h_sched adds six families: upper levels 0..height+1 on the OpenMP executor, on both target/source executors, staged histories on the OpenMP executor and on both target/source executors, every single flag alone on the OpenMP executor and on both target/source executors (events == model masked by the flag, only the flag's output kind changes). non-trivial = tree with >= 2 particles / far or near interactions / height >= 3 respectively; distinct = family + input signature.",
         "require_events": ["single-flag-runs", "staged-histories", "upper-level-runs", "named-flag-runs", "named-flag-partitions-checked"],
         "assumptions": [],
@@ -117,7 +120,12 @@ CHECKS = {
         "technique": "runtime monitoring: structural invariant walk over the freshly built tree (applyToAllLeaves/Cells) against the input array and the coordinate model; byte hash of symbolic buffers around execute()",
         "claim": "On every explored input each particle was stored exactly once, in a leaf whose closed box contains it (exactly the expected leaf on dyadic inputs, upper face -> last cell), with its original index and bit-identical data; results and expansions started at zero; execute() left all symbolic buffers byte-identical.",
         "note": "Containment tolerates 4 ulp at leaf faces (either side is legitimate there); exact leaf required when positions and box are dyadic. Morton index<->coordinate checked against the model's encode.",
-        "jobs": [{"bin": "h_tree", "mode": "c06"}],
+        "jobs": [{"bin": "h_tree", "mode": "c06"},
+                 # "execution of any executor never alters positions" with the shipped kernels that shift source positions for periodic P2P: the periodic target/source
+                 # cases of the numerical engine re-read every stored value after the OpenMP target/source executor ran (key c06:positions-changed-by-execute); only c06 keys are judged here
+                 {"bin": "h_num", "mode": "c05", "env": {"VH_BOUNDS": "/verif/bounds.json"}, "timeout": 3000},
+                 {"bin": "h_num_tsan", "mode": "c05", "env": {"VH_BOUNDS": "/verif/bounds.json", "VH_FORCE_WAVE": "1"}, "timeout": 3000, "per_case": True, "stride": 2, "limit": {"quick": 60, "thorough": 400}}],
+        "key_filter": ["^c06", "^(asan|ubsan|lsan|tsan|memcheck|assert|glibcxx-assert|abort|signal|hang|exit):"],
         "rule": "cases = random inputs over 10 tree flavours (Dim 1..4, float/double coordinates, data type different from coordinate type both ways, 1..7 data values, 0..4 result values, periodic ordering) x 8 distributions (uniform, clustered, lattice, cell faces, nextafter neighbours of faces, coincident, single leaf, box faces/corners) + exact-lattice inputs with exactly known leaves x random box geometries, heights, block sizes (incl. automatic), both modes; every 4th case builds target/source trees; plus very large inputs (N = 1000003 .. 1200007 uniform particles, four flavours, under 2..16 threads of the real libgomp the engine is linked with: construction paths that switch on the input size or on _OPENMP) checked with the same oracle and the structural invariants. non-trivial = N >= 2; distinct = (flavour,height,block size,mode,N,#leaves,occupancy hash).",
         "require_events": ["particles-checked", "cells-checked", "executions", "huge-trees"],
         "assumptions": ["inputs are filtered by the library's own precondition 0 <= fl(p-corner) <= width"],
@@ -148,8 +156,11 @@ CHECKS = {
         "technique": "runtime monitoring: differential oracle - every lookup compared with a brute-force scan of all groups",
         "claim": "Every explored query (every index in [-2, upper bound+2] of every level of small trees; present, neighbouring, random and out-of-range indices on larger ones) returned a handle iff the cell/leaf exists, pointing at the right group and position; group-level first-child-of-parent and index lookups agreed with linear scans.",
         "note": "Trusted: linear scans through the public group accessors.",
-        "jobs": [{"bin": "h_tree", "mode": "c16"}, {"bin": "h_tree", "mode": "c07"}],
-        "rule": "cases = random trees over 10 flavours (every 4th: source and target trees) with exhaustive index ranges when the level has <= 5000 indices, sampled otherwise; plus the enumerated occupancy slices of C07 (all block sizes, both modes) with exhaustive queries. non-trivial = N >= 2; distinct = tree signature.",
+        "jobs": [{"bin": "h_tree", "mode": "c16"}, {"bin": "h_tree", "mode": "c07"},
+                 # query histories: the move / rebuild cycles of C13 look cells and leaves up before the move and after the rebuild on the same tree object; only those keys are judged here
+                 {"bin": "h_tree", "mode": "c13"}],
+        "key_filter": ["^c16", "^(asan|ubsan|lsan|tsan|memcheck|assert|glibcxx-assert|abort|signal|hang|exit):"],
+        "rule": "cases = random trees over 10 flavours (every 4th: source and target trees) with exhaustive index ranges when the level has <= 5000 indices, sampled otherwise; plus the enumerated occupancy slices of C07 (all block sizes, both modes) with exhaustive queries; plus query histories on one tree object: the same lookups before the particles are moved and after rebuild(), in every move / rebuild cycle of the C13 case sets (single and target/source trees). non-trivial = N >= 2; distinct = tree signature.",
         "require_events": ["lookup-queries", "lookup-hits"],
         "assumptions": [],
     },
@@ -234,8 +245,8 @@ CHECKS = {
         "claim": "On every explored pair of particle clouds (counts 0..500 incl. 0, 1 and +-1 around multiples of 4..64, separations over 12 orders of magnitude, either sign and neutral particles (charge exactly 0, which still receive a potential), common charge magnitudes 1e-2..1e2, float and double, non-zero initial results) the routines added to every target sum q_j/r and q_i q_j (x_j-x_i)/r^3 within (n+12) eps times the sum of absolute terms, excluded the self term, left sources untouched in the one-sided routine, produced bit-exactly opposite forces for a single pair and balanced total force in general.",
         "note": "Scalar path only: Inastemp is not present in this image, the vectorised path is out of reach.",
         "jobs": [{"bin": "h_num", "mode": "c20", "env": {"VH_BOUNDS": "/verif/bounds.json"}}],
-        "rule": "case = random source and target clouds; remote, mutual and inner routines each compared component by component with the long double reference. non-trivial = both clouds non-empty; distinct = (type, counts, scale, sign, initial-rhs flag, neutral-particle pattern, charge scale).",
-        "require_events": ["p2p-values-checked", "p2p-opposite-pairs-checked", "p2p-cases-with-neutral-particles"],
+        "rule": "case = random source and target clouds; remote, mutual and inner routines each compared component by component with the long double reference. Every third case also calls the mutual routine on a cloud and its own shifted image with one set of result arrays for both sides (what the kernels do for a leaf that is its own periodic neighbour): action and reaction of every ordered pair must both arrive. non-trivial = both clouds non-empty; distinct = (type, counts, scale, sign, initial-rhs flag, neutral-particle pattern, charge scale).",
+        "require_events": ["p2p-values-checked", "p2p-opposite-pairs-checked", "p2p-cases-with-neutral-particles", "p2p-own-image-cases"],
         "assumptions": ["tolerance coefficient p2p.coef in bounds.json (2.0) multiplies the first-order worst-case summation bound"],
     },
     "C04": {
